@@ -10,7 +10,7 @@ from geneticengine.evaluation.sequential import SequentialEvaluator
 from geneticengine.problems import MultiObjectiveProblem, SingleObjectiveProblem
 from geneticengine.solutions.individual import Individual
 
-from mc.explorer import ExploreStats, explore
+from mc.explorer import ExhaustiveSource, ExploreStats, explore
 from mc.harness import UnitResult, Violation
 from mc.stubrep import StubRepresentation
 from checks.common import exc_brief
@@ -37,6 +37,11 @@ def units(tier, seed):
                 for minimize in (False, True):
                     us.append({"kind": "tournament", "n": n, "ts": ts, "repl": repl, "minimize": minimize,
                                "max_execs": 3000 if tier == "quick" else 40000})
+    for ts in (2, 3):
+        for repl in (False, True):
+            for minimize in (False, True):
+                us.append({"kind": "tournament", "n": 3, "ts": ts, "repl": repl, "minimize": minimize, "reused": True,
+                           "max_execs": 3000 if tier == "quick" else 40000})
     for n in (1, 2, 3):
         for c in (1, 2) if tier == "quick" else (1, 2, 3):
             for eps in (False, True):
@@ -65,6 +70,12 @@ def run_tournament(unit) -> UnitResult:
                 def run(src, inds=inds, form=form, target=target, problem=problem):
                     pop = list(inds) if form == "list" else iter(list(inds))
                     step = TournamentSelection(ts, with_replacement=repl)
+                    if unit.get("reused"):
+                        # the step object already served a selection for another problem (the opposite ranking)
+                        before = SingleObjectiveProblem(lambda p: float(p.v), minimize=not minimize)
+                        keep_alive.append(before)
+                        list(step.apply(before, SequentialEvaluator(), rep, ExhaustiveSource((), strict=False), list(inds), target, 1))
+                        del src.log[:]
                     return list(step.apply(problem, SequentialEvaluator(), rep, src, pop, target, 1)), list(src.log)
 
                 st = ExploreStats()
@@ -135,7 +146,7 @@ def run_lexicase(unit) -> UnitResult:
     vecs = list(itertools.product([0, 1, 2], repeat=c))
     for fits in itertools.product(vecs, repeat=n):
         for mins in itertools.product([False, True], repeat=c):
-            for target in range(1, n + 1):
+            for target in range(1, n + 2):
                 table = {i: list(f) for i, f in enumerate(fits)}
 
                 def ff(p, table=table):
@@ -155,12 +166,17 @@ def run_lexicase(unit) -> UnitResult:
                 for ex in explore(run, max_execs=unit["max_execs"], horizon=400, stats=st):
                     r.executions += 1
                     w = {"unit": unit, "fitness": [list(f) for f in fits], "minimize": list(mins), "target": target, "choices": list(ex.choices)}
+                    if ex.exc is not None and target > n:
+                        # more winners requested than there are individuals: refusing is the only way not to hand out
+                        # more copies than the population contains
+                        r.count("oversubscribed_lexicase_refused")
+                        continue
                     if ex.exc is not None:
                         r.add_violation(Violation(PROP, "LexicaseSelection.apply", "raised", {"exc": type(ex.exc).__name__}, w,
                                                   f"lexicase eps={eps} on {fits} mins {mins} target {target}: {exc_brief(ex.exc)}"))
                         continue
                     winners = ex.result
-                    if len(winners) != target:
+                    if len(winners) != target and target <= n:
                         r.add_violation(Violation(PROP, "LexicaseSelection.apply", "wrong-count", {}, w, f"lexicase target {target}: {len(winners)} winners"))
                         continue
                     if target >= 2:
